@@ -28,10 +28,26 @@ theorem id_string_roundtrip (f : FeatureID) (hv : f.value < 2 ^ 64) (ht : f.type
 example : fromString (idString ⟨.collection, bytes! "a/b/c", 2 ^ 64 - 1⟩)
     = ⟨.collection, bytes! "a/b/c", 2 ^ 64 - 1⟩ := by decide
 
-/-- JSON: the string given to the JSON library comes back through `UnmarshalJSON` as the same ID. -/
-theorem id_json_roundtrip (f : FeatureID) (hv : f.value < 2 ^ 64) (ht : f.type ≠ .invalid) :
-    fromJSONString (jsonString f) = f :=
-  fromString_idString f hv ht
+/-- JSON: the string given to the JSON library comes back through `UnmarshalJSON` as the same ID, whenever the
+library carries it unchanged — which `encoding/json` does exactly for valid UTF-8 (`jsonCarry`; the escapes it
+writes for controls, quotes, `<>&`, U+2028/9 are its own business and are undone by its decoder: exercised on every
+run with namespaces holding all of them, not modelled). -/
+theorem id_json_roundtrip (f : FeatureID) (hv : f.value < 2 ^ 64) (ht : f.type ≠ .invalid)
+    (hcarry : jsonCarry (jsonString f) = jsonString f) :
+    fromJSONString (jsonCarry (jsonString f)) = f := by
+  rw [hcarry]
+  exact fromString_idString f hv ht
+
+example : jsonCarry (jsonString ⟨.path, bytes! "a\u0007/é\u2028", 7⟩) = jsonString ⟨.path, bytes! "a\u0007/é\u2028", 7⟩ := by
+  decide
+
+/-- a namespace that is not valid UTF-8 does not survive JSON: the stray byte 0xFF comes back as U+FFFD, without
+an error (and `proto.Marshal` refuses such an ID).  JSON and protobuf strings are Unicode: such namespaces are
+outside what these two encodings can express. -/
+theorem json_invalid_utf8_counterexample :
+    ∃ f : FeatureID, f.isValid = true ∧ f.value < 2 ^ 64 ∧ validUTF8 f.ns = false ∧
+      fromJSONString (jsonCarry (jsonString f)) ≠ f :=
+  ⟨⟨.path, [97, 255], 7⟩, by decide, by decide, by decide, by decide⟩
 
 /-- YAML: the string given to the YAML library (leading `/`) comes back through `UnmarshalYAML`. -/
 theorem id_yaml_roundtrip (f : FeatureID) (hv : f.value < 2 ^ 64) (ht : f.type ≠ .invalid) :
